@@ -50,6 +50,13 @@ def _helpers():
         "send_resources_subscribe": (dict(uri="file:///x"), "resources/subscribe", {"uri": "file:///x"}, lambda m: {"marker": m}),
         "send_resources_unsubscribe": (dict(uri="file:///x"), "resources/unsubscribe", {"uri": "file:///x"}, lambda m: {"marker": m}),
         "send_logging_set_level": (dict(level="info"), "logging/setLevel", {"level": "info"}, lambda m: {"marker": m}),
+        "send_completion_complete": (dict(ref={"type": "ref/prompt", "name": "p"}, argument={"name": "a", "value": "v"}), "completion/complete",
+                                     {"ref": {"type": "ref/prompt", "name": "p"}, "argument": {"name": "a", "value": "v"}},
+                                     lambda m: {"completion": {"values": [m], "total": 1}}),
+        "send_sampling_create_message": (dict(messages=[{"role": "user", "content": {"type": "text", "text": "hi"}}], max_tokens=5), "sampling/createMessage",
+                                         {"messages": [{"role": "user", "content": {"type": "text", "text": "hi"}}], "maxTokens": 5},
+                                         lambda m: {"role": "assistant", "content": {"type": "text", "text": m}, "model": "sim"}),
+        "send_roots_list": (dict(), "roots/list", None, lambda m: {"roots": [{"uri": "file:///" + m, "name": m}]}),
     }
 
 
@@ -64,6 +71,9 @@ def _helper_fn(name):
     from chuk_mcp.protocol.messages.prompts.send_messages import send_prompts_list, send_prompts_get
     from chuk_mcp.protocol.messages.ping.send_messages import send_ping
     from chuk_mcp.protocol.messages.logging.send_messages import send_logging_set_level
+    from chuk_mcp.protocol.messages.completions.send_messages import send_completion_complete
+    from chuk_mcp.protocol.messages.sampling.send_messages import send_sampling_create_message
+    from chuk_mcp.protocol.messages.roots.send_messages import send_roots_list
 
     return {
         "send_tools_list": send_tools_list, "send_tools_list_cursor": send_tools_list,
@@ -73,7 +83,8 @@ def _helper_fn(name):
         "send_prompts_list": send_prompts_list, "send_prompts_get": send_prompts_get,
         "send_ping": send_ping, "send_resources_subscribe": send_resources_subscribe,
         "send_resources_unsubscribe": send_resources_unsubscribe,
-        "send_logging_set_level": send_logging_set_level,
+        "send_logging_set_level": send_logging_set_level, "send_completion_complete": send_completion_complete,
+        "send_sampling_create_message": send_sampling_create_message, "send_roots_list": send_roots_list,
     }[name]
 
 
@@ -407,7 +418,7 @@ def _classify(api, kind, val, rid):
         return ("exception", type(val).__name__, str(val)[:120])
     if api in BOOL_HELPERS:
         return ("bool", val)
-    if api == "send_message" or api == "send_logging_set_level":
+    if api in ("send_message", "send_logging_set_level", "send_sampling_create_message"):
         return ("result", val)
     try:
         return ("result", val.model_dump(exclude_none=True, by_alias=True))
@@ -443,7 +454,7 @@ def _outcome_ok(api, actual, acceptable):
                 if actual == ("bool", True):
                     return True
             elif actual[0] == "result":
-                if api == "send_message" or api == "send_logging_set_level":
+                if api in ("send_message", "send_logging_set_level", "send_sampling_create_message"):
                     if payload is None:
                         # documented fallback: None result -> full envelope (or None)
                         if actual[1] is None or (isinstance(actual[1], dict) and actual[1].get("result", 0) is None and "method" not in actual[1]):
